@@ -224,7 +224,7 @@ def check_invalid(case):
 
 def parts(tier):
     return [
-        Part("clicks", strategy=_valid(), check=check_valid, n={"quick": 16000, "thorough": 400000}),
+        Part("clicks", strategy=_valid(), check=check_valid, n={"quick": 16000, "thorough": 2000000}),
         Part("rejects", strategy=_invalid(), check=check_invalid, n={"quick": 3000, "thorough": 60000}),
     ]
 
